@@ -737,9 +737,18 @@ def run(ctx: Context):
                     raisers.setdefault(name, []).append((n, where))
         r.site(fn, None, "explicit request errors: %s" % (", ".join(sorted(raisers)) or "none"))
         r.count(len(c8.nodes) * max(1, len(muts)))
+        # validation may also sit in the caller, before the write stage
+        after_slot = set()
+        for (wn_, c_, e_) in writers:
+            after_slot |= fwd(cfg, [d for (d, l) in cfg.succ[wn_.id] if l != "exc"]) | {wn_.id}
+        early_in_caller = set()
+        for n in cfg.nodes:
+            if n.kind in ("entry", "exit", "raise") or n.id in after_slot:
+                continue
+            early_in_caller |= set(rz.node_raises(slot, cfg, n, frozenset([slot.qual])))
         for name, lst in sorted(raisers.items()):
             late = [(n, where) for (n, where) in lst if n.id in after]
-            early = [(n, where) for (n, where) in lst if n.id not in after]
+            early = [(n, where) for (n, where) in lst if n.id not in after] or ([True] if name in early_in_caller else [])
             if late and not early:
                 n, where = late[0]
                 r.violation(where, fn.loc(n.ast), "%s (raised in %s) can abort _evaluate_write_vectors at %s after an earlier "
